@@ -12,6 +12,7 @@ import (
 	sdk "github.com/cosmos/cosmos-sdk/types"
 	bitcointypes "github.com/goatnetwork/goat/x/bitcoin/types"
 	relayertypes "github.com/goatnetwork/goat/x/relayer/types"
+	"verifharness/enga"
 	"verifharness/mc"
 	"verifharness/sim"
 )
@@ -328,6 +329,7 @@ func runC01(r *mc.Run) {
 			w.close()
 		}
 	}
+	c01Delivery(r)
 	_ = bits.Len
 }
 
@@ -350,3 +352,71 @@ func replayC01(detail json.RawMessage) (bool, string) {
 }
 
 func init() { register(&Check{ID: "C01", Run: runC01, Replay: replayC01}) }
+
+// c01Delivery ties the keeper-level verdict to "takes effect / changes nothing": class
+// representatives are delivered as signed transactions in real blocks (Engine A); a rejected
+// proposal must leave relayer and bridge stores equal to the same block without it.
+func c01Delivery(r *mc.Run) {
+	cfg := c08Cfg()
+	cfg.Voters = append(cfg.Voters, sim.NewMember("relayer-2"), sim.NewMember("relayer-3"))
+	base, err := enga.NewWorld(cfg)
+	must(err)
+	defer base.Close()
+	n := len(cfg.Voters) // 3 voters, threshold 3
+	reps := []c01Case{
+		{Voters: n, Kind: "NewBlockHashes", Marks: []int{0, 1}, BitmapLen: 8, Signers: []int{0, 1, 2}, WantAccept: true},
+		{Voters: n, Kind: "NewBlockHashes", Marks: []int{0, 1, 2}, BitmapLen: 8, Signers: []int{0, 1, 2, 3}, WantAccept: true},
+		{Voters: n, Kind: "NewBlockHashes", Marks: []int{0}, BitmapLen: 8, Signers: []int{0, 1}},
+		{Voters: n, Kind: "NewBlockHashes", Marks: []int{0, 3}, BitmapLen: 8, Signers: []int{0, 1}},
+		{Voters: n, Kind: "NewBlockHashes", Marks: []int{0, 40}, BitmapLen: 8, Signers: []int{0, 1}},
+		{Voters: n, Kind: "NewBlockHashes", Marks: []int{0, 1}, BitmapLen: 8, Signers: []int{0, 1}},
+		{Voters: n, Kind: "NewBlockHashes", Marks: []int{0, 1}, BitmapLen: 8, Signers: []int{0, 1, 2, 3}},
+		{Voters: n, Kind: "NewBlockHashes", Marks: []int{0, 1}, BitmapLen: 8, Signers: []int{0, 1, 2}, Perturb: "epoch+1-signed"},
+		{Voters: n, Kind: "NewPubkey", Marks: []int{0, 1}, BitmapLen: 8, Signers: []int{0, 1}},
+		{Voters: n, Kind: "NewConsolidation", Marks: []int{1, 2}, BitmapLen: 8, Signers: []int{0, 2}},
+	}
+	stores := []string{"relayer", "bitcoin"}
+	ref, err := base.Fork()
+	must(err)
+	eth, _, err := ref.N.BuildEthBlockTx(sim.EthBlockOpts{})
+	must(err)
+	rr := ref.N.RunBlock(&sim.Block{TimeDelta: 1e9, Txs: [][]byte{eth}})
+	must(rr.Err)
+	emptyDump := ref.N.DumpStores(ref.N.Ctx(), stores...).Hash()
+	ref.Close()
+	for i := range reps {
+		c := reps[i]
+		x, err := base.Fork()
+		must(err)
+		w := &c01World{n: x.N, root: x.N.Ctx(), tip: cfg.BtcTip}
+		w.members = append([]sim.Member{cfg.Proposer}, cfg.Voters...)
+		msg := w.build(&c)
+		tx := x.N.SignFor(cfg.Proposer.Key, 0, 0, msg)
+		eth, _, err := x.N.BuildEthBlockTx(sim.EthBlockOpts{})
+		must(err)
+		res := x.N.RunBlock(&sim.Block{TimeDelta: 1e9, Txs: [][]byte{eth, tx}})
+		r.Transitions.Add(1)
+		r.Validated.Add(1)
+		if res.Err != nil {
+			r.Violate(mc.Violation{Class: "block-with-voted-proposal-fails", Msg: res.Err.Error(), Detail: c}, nil)
+			x.Close()
+			continue
+		}
+		ok := res.Finalize.TxResults[1].Code == 0
+		dump := x.N.DumpStores(x.N.Ctx(), stores...).Hash()
+		switch {
+		case ok != c.WantAccept:
+			r.Violate(mc.Violation{Class: "delivered-proposal-verdict-mismatch:" + c.Kind, Msg: fmt.Sprintf("in a finalised block: accepted=%v reference=%v for %+v", ok, c.WantAccept, c), Detail: c}, nil)
+		case !ok && dump != emptyDump:
+			r.Violate(mc.Violation{Class: "rejected-proposal-changed-state", Msg: fmt.Sprintf("relayer/bitcoin stores differ from the same block without the proposal: %+v", c), Detail: c}, nil)
+		case ok && dump == emptyDump:
+			r.Violate(mc.Violation{Class: "accepted-proposal-without-effect", Msg: fmt.Sprintf("%+v", c), Detail: c}, nil)
+		}
+		if ok {
+			r.Outcome("delivered-accept:" + c.Kind)
+		} else {
+			r.Outcome("delivered-reject:" + c.Kind)
+		}
+		x.Close()
+	}
+}
